@@ -448,6 +448,10 @@ class BufferedGenerator(VC):
 # native oracle for the entry points (REAL code; used by replays and bounded stand-ins)
 # =====================================================================================
 
+# codecs whose incremental encoder is not byte-identical to the one-shot encoding (C10.spec.incremental_encoder)
+NOT_BYTE_IDENTICAL = ("utf-7",)
+
+
 class Boom(Exception):
     """raised by the stand-in render function of the native oracle"""
 
@@ -667,6 +671,14 @@ def native_check(w):
         d = chunk_oracle(rest_in, size, chunks)
         return None if d is None else f"enable_buffering({size}) over {rest_in!r} -> {chunks!r}: {d}"
 
+    if entry == "dump" and w.get("reps", 2) > 1:
+        # dump() calls are independent: the same dump twice in a row must be right both times
+        for i in range(w.get("reps", 2)):
+            d = native_check({**w, "reps": 1})
+            if d:
+                return f"dump #{i + 1} in a row: {d}"
+        return None
+
     if entry == "dump":
         target, enc, errors = w["target"], w.get("encoding"), w.get("errors", "strict")
         if w.get("nonascii"):
@@ -740,6 +752,9 @@ def native_check(w):
                         return f"file holds {data!r}, which does not decode as {codec}: {ex}"
                     if got_text != want_text:
                         return f"dump(path, {codec!r}) wrote a file that decodes to {got_text!r}, the rendered text is {want_text!r}"
+                    want_bytes = "".join(pieces).encode(codec, errors)
+                    if codec not in NOT_BYTE_IDENTICAL and data != want_bytes:
+                        return f"dump(path, {codec!r}) wrote {data!r}, the rendered text in that encoding is {want_bytes!r}"
                 else:
                     try:
                         "".join(pieces).encode(enc or "utf-8", errors)
@@ -776,8 +791,12 @@ def native_check(w):
                 got_text = b"".join(got).decode(enc)
             except UnicodeError as ex:
                 return f"dump wrote {got!r}, which does not decode as {enc}: {ex}"
-            return None if got_text == want_text else (
-                f"dump(file, {enc!r}) wrote bytes that decode to {got_text!r}, the rendered text is {want_text!r}")
+            if got_text != want_text:
+                return f"dump(file, {enc!r}) wrote bytes that decode to {got_text!r}, the rendered text is {want_text!r}"
+            want_bytes = "".join(pieces).encode(enc, errors)
+            if enc not in NOT_BYTE_IDENTICAL and b"".join(got) != want_bytes:
+                return f"dump(file, {enc!r}) wrote {b''.join(got)!r}, the rendered text in that encoding is {want_bytes!r}"
+            return None
         items = list(pieces)
         if w.get("buffered"):
             s2 = E.TemplateStream(iter(list(pieces)))
@@ -1789,6 +1808,33 @@ class Dump(C10VC):
 
         I.specs["_IncEnc.encode"] = inc_encode
 
+        def unknown_call(I_, st, fn, args, kwargs, node):
+            """dump may delegate to helpers of the package: they are executed from their real source.  A MEMOISED helper
+            (functools.lru_cache / cache) may hand out the object created by an earlier call: whatever mutable object it
+            returns is then in an arbitrary state (for an encoder: already fed, its earlier outputs written elsewhere)."""
+            import types
+            inner = getattr(fn, "__wrapped__", None)
+            memo = inner is not None and hasattr(fn, "cache_info")
+            target_fn = inner if memo else fn
+            if not (isinstance(target_fn, types.FunctionType) and I_.is_repo(target_fn)):
+                return None
+            clo = I_.closure_of_function(target_fn)
+            out = []
+            for s, v in I_.call_closure(st, clo, list(args), dict(kwargs), node):
+                out.append((s, v))
+                if memo and isinstance(v, Ref) and isinstance(s.get(v), HObj) and s.get(v).cls is _IncEnc:
+                    s2 = s.fork()
+                    h = s2.get(v)
+                    L = s2.get(h.fields["log"])
+                    L.arr, L.n = z3.Const(fresh_name("stale_log"), ArrO), z3.Int(fresh_name("stale_log_n"))
+                    s2.assume(L.n >= 0)
+                    h.fields["fed"] = fresh("stale_fed", "str")
+                    s2.ghost["enc_stale"] = getattr(target_fn, "__qualname__", "?")
+                    out.append((s2, v))
+            return out
+
+        I.on_unknown_call = unknown_call
+
         # -- the nested generator encoded(): its yields are collected in a ghost sequence ----------------------------
         def ev_yield(e, st, fr):
             def f(s, v):
@@ -1975,13 +2021,21 @@ class Dump(C10VC):
         goal = z3.And(T == RT(whole, e, r), z3.Implies(self.errors.t == z3.StringVal("strict"), T == whole))
         return z3.Implies(btext_ext(h.arr, n0, h.n, L.arr, z3.IntVal(0), L.n, e), goal)
 
+    def p_fresh_encoder(self, pre, out):
+        """the encoder of a dump() call is created by that call (`codecs.getincrementalencoder(enc)(errors)` evaluated
+        during the call, nothing fed to it before): no encoder state outlives a call"""
+        if self.e_term is None:
+            return None
+        return not out.st.ghost.get("enc_stale")
+
     def p_exceptions(self, pre, out):
         """dump adds no failure of its own"""
         if out.returned:
             return True
         return out.value.tag in ("open", "write", "writelines", "encode", "codec")
 
-    posts = [("open", p_open), ("close", p_close), ("content", p_content), ("text", p_text), ("exceptions", p_exceptions)]
+    posts = [("open", p_open), ("close", p_close), ("content", p_content), ("text", p_text),
+             ("fresh_encoder", p_fresh_encoder), ("exceptions", p_exceptions)]
 
 
 DUMPS = [Dump(k, e) for k in ("path", "wl", "nowl") for e in (False, True)]
@@ -2160,8 +2214,15 @@ DUMP_CODECS = [("utf-8", "strict"), ("latin-1", "replace"), ("ascii", "replace")
 DUMP_PIECES = [[], [""], ["a"], ["a", "b"], ["é", "", "日本", "x"], ["", "p", "", "q", "r", ""], ["<", "é€", ">", "1", "2", "3", "4"]]
 
 
-def dump_codec_case(enc, errors, pieces, size, target):
-    """-> None | description: decode(dumped bytes) == what the codec/error mode keeps of the whole text"""
+def dump_codec_case(enc, errors, pieces, size, target, reps=2):
+    """-> None | description: the dumped bytes are the rendered text in that encoding (byte-identical where the
+    codec table established it, decoding to it otherwise) - for every dump of a sequence of dumps"""
+    if reps > 1:
+        for i in range(reps):
+            d = dump_codec_case(enc, errors, pieces, size, target, reps=1)
+            if d:
+                return f"dump #{i + 1} in a row: {d}"
+        return None
     text = "".join(pieces)
     want = text.encode(enc, errors).decode(enc)
     s = E.TemplateStream(iter(list(pieces)))
@@ -2186,6 +2247,9 @@ def dump_codec_case(enc, errors, pieces, size, target):
         return f"the dumped bytes {data!r} do not decode as {enc}: {ex}"
     if got != want:
         return f"dump({target}, {enc!r}, {errors!r}) of pieces {pieces!r} (buffer {size}) decodes to {got!r}, the rendered text is {want!r}"
+    if enc not in NOT_BYTE_IDENTICAL and data != text.encode(enc, errors):
+        return (f"dump({target}, {enc!r}, {errors!r}) of pieces {pieces!r} (buffer {size}) wrote {data!r}, "
+                f"the rendered text in that encoding is {text.encode(enc, errors)!r}")
     return None
 
 
@@ -2341,6 +2405,7 @@ META = {
         "the Context returned by new_context belongs to the environment passed to it (contract of runtime.new_context / Context.__init__)",
         "file model of dump: write appends, writelines appends in order (writelines(it) == for x in it: write(x)), both may raise OSError; open gives a new empty file with writelines or raises OSError; str.encode is an uninterpreted function that may raise UnicodeError (raised eagerly in the model)",
         "codec law (every codec): for enc = codecs.getincrementalencoder(e)(r), the concatenation of enc.encode(x_0) ... enc.encode(x_n-1), enc.encode('', final=True) decodes to the same text as ''.join(x).encode(e, r) (byte-identical too, except CPython's utf-7); a strict encode that succeeds is lossless; getincrementalencoder may raise LookupError, encode may raise UnicodeEncodeError",
+        "helpers of the package that dump calls are executed from their real source; a helper memoised with functools.lru_cache/cache may return the object of an earlier call, so a mutable object it returns (an encoder) is in an arbitrary state: clause fresh_encoder requires the encoder to be created by the dump call itself; the native oracle runs every dump twice in a row and compares bytes with text.encode(enc, errors) (all codecs except utf-7)",
         "for file-object targets the decoded-text clause is about the bytes dump wrote (what the object held before is only required to be untouched)",
         "generate()/render() in async mode belong to C09.entry (render's delegation to asyncio.run(render_async(...)) is checked here; generate is checked in sync mode)",
         "partial correctness: termination is not proved",
